@@ -759,3 +759,245 @@ Proof. intros. rewrite tr_vel_validate_arr. apply velocities_iff_convention. Qed
 Theorem Transcription_vel_validate_raises_ValueError : forall ri rp rv ei ep ev e,
   TR.vel_validate ri rp rv ei ep ev = Raise e -> e = ValueError.
 Proof. intros ri rp rv ei ep ev e. rewrite tr_vel_validate_arr. apply velocities_raises_ValueError. Qed.
+
+(* ---------------------------------------------------------------- Key.validate_key / validate *)
+(* docstring: 'Check that a key is well-formatted, e.g. in the form C# major.  The Key can be X if it is not possible to
+   categorize the Key and mode can be other'.  Convention: the string is X (any case), or two whitespace-separated words, a
+   tonic of the table other than X and one of the documented modes. *)
+Close Scope Q_scope.
+Definition conv_key (key : str) : bool :=
+  KY.is_x key ||
+  match KY.split_ws key with
+  | [k; mode] => negb (KY.is_x k) && KY.in_table (lower k) && existsb (seqb mode) KEY_MODES
+  | _ => false
+  end.
+Lemma is_x_one_token key : KY.is_x key = true -> KY.split_ws key = [key].
+Proof.
+  unfold KY.is_x, lower, KY.s_x. destruct key as [|c [|d t]]; cbn [map seqb]; try discriminate.
+  - rewrite andb_true_r. intros H. apply Nat.eqb_eq in H.
+    assert (C : c = 88 \/ c = 120).
+    { destruct ((65 <=? c) && (c <=? 90)) eqn:E; [left|right; exact H].
+      apply andb_true_iff in E. destruct E as [E1 E2]. apply Nat.leb_le in E1, E2. lia. }
+    destruct C; subst; reflexivity.
+  - rewrite andb_false_r. discriminate.
+Qed.
+Theorem Key_validate_key_iff_convention : forall key, KY.validate_key key = Ok tt <-> conv_key key = true.
+Proof.
+  intros key. unfold KY.validate_key, conv_key. destruct (KY.is_x key) eqn:X.
+  - rewrite (is_x_one_token key X). cbn. split; reflexivity.
+  - cbn [negb andb orb]. rewrite andb_false_r. cbn [negb]. rewrite andb_true_r.
+    destruct (KY.split_ws key) as [|k [|mode [|z t]]]; try (cbn; split; discriminate).
+    cbn [bind two length Nat.eqb negb andb].
+    destruct (KY.is_x k), (KY.in_table (lower k)), (existsb (seqb mode) KEY_MODES); cbn [negb andb]; split; congruence.
+Qed.
+Theorem Key_validate_key_raises_ValueError : forall key e, KY.validate_key key = Raise e -> e = ValueError.
+Proof.
+  intros key e. unfold KY.validate_key. destruct (negb _ && negb _); [congruence|]. destruct (negb (KY.is_x key)); [|discriminate].
+  destruct (KY.split_ws key) as [|k [|mode [|z t]]]; try (cbn; congruence).
+  cbn [bind two].
+  destruct (KY.is_x k), (KY.in_table (lower k)), (existsb (seqb mode) KEY_MODES); cbn [negb]; congruence.
+Qed.
+Theorem Key_validate_iff_convention : forall r e, KY.validate r e = Ok tt <-> conv_key r && conv_key e = true.
+Proof. intros. unfold KY.validate. rewrite bind_ok, !Key_validate_key_iff_convention, andb_true_iff. tauto. Qed.
+Theorem Key_validate_raises_ValueError : forall r e x, KY.validate r e = Raise x -> x = ValueError.
+Proof. intros r e. unfold KY.validate. apply only_VE_bind; intros x; apply Key_validate_key_raises_ValueError. Qed.
+Example key_faults :
+  map (fun k => tag (KY.validate_key k))
+      [[67; 32; 109; 97; 106; 111; 114]; [88]; [120]; [67]; []; [72; 32; 109; 97; 106; 111; 114]; [67; 32; 109; 97; 106];
+       [88; 32; 109; 97; 106; 111; 114]; [67; 32; 109; 97; 106; 111; 114; 32; 120]]
+  = [0; 0; 0; 1; 1; 1; 1; 1; 1].
+Proof. vm_compute. reflexivity. Qed.
+Open Scope Q_scope.
+
+(* ---------------------------------------------------------------- ChordScore.wa_q (chord.weighted_accuracy) *)
+(* docstring: comparisons shape=(n,), weights shape=(n,) 'non-negative'; messages 'weights and comparisons should be of the
+   same length', 'Weights should all be positive' (zero weights are accepted) *)
+Definition conv_weights (c w : list Q) : bool := (length w =? length c)%nat && forallb (fun x => qleb 0 x) w.
+Theorem weighted_accuracy_scored_iff_convention : forall c w, (exists v, CS.wa_q c w = Ok v) <-> conv_weights c w = true.
+Proof.
+  intros c w. unfold CS.wa_q, conv_weights. rewrite existsb_forallb.
+  rewrite (forallb_ext' (fun x => negb (qltb x 0)) (fun x => qleb 0 x)) by (intros x; symmetry; apply qleb_negb).
+  destruct (Nat.eqb (length w) (length c)); cbn; [|split; [intros [v H]; discriminate|discriminate]].
+  destruct (forallb (fun x => qleb 0 x) w); cbn; [|split; [intros [v H]; discriminate|discriminate]].
+  split; [reflexivity|intros _]. destruct (qeqb (qsum w) 0); [eexists; reflexivity|].
+  destruct (CS.wa_keep c w); [eexists; reflexivity|]. destruct (qeqb _ 0); eexists; reflexivity.
+Qed.
+Theorem weighted_accuracy_raises_ValueError : forall c w e, CS.wa_q c w = Raise e -> e = ValueError.
+Proof.
+  intros c w e. unfold CS.wa_q. destruct (negb _); [congruence|]. destruct (existsb _ w); [congruence|].
+  destruct (qeqb (qsum w) 0); [discriminate|]. destruct (CS.wa_keep c w); [discriminate|]. destruct (qeqb _ 0); discriminate.
+Qed.
+
+(* ---------------------------------------------------------------- Tempo.validate_tempi / validate *)
+(* docstring: 'Check that there are two non-negative tempi.  For a reference value, at least one tempo has to be greater than
+   zero.'; validate: 'Reference weight must lie in range [0, 1]' *)
+Definition nonneg_fin (x : xval) : bool := match x with Fin q => qleb 0 q | _ => false end.
+Definition pos_fin (x : xval) : bool := match x with Fin q => qltb 0 q | _ => false end.
+Definition conv_tempi (t : list xval) (reference : bool) : bool :=
+  (length t =? 2)%nat && forallb nonneg_fin t && (negb reference || existsb pos_fin t).
+Definition conv_tempo (r : list xval) (w : Q) (e : list xval) : bool :=
+  conv_tempi r true && conv_tempi e false && qleb 0 w && qleb w 1.
+Lemma qltb_false a b : qltb a b = false <-> b <= a.
+Proof. unfold qltb. rewrite negb_false_iff. apply Qle_bool_iff. Qed.
+Lemma qleb_false a b : qleb a b = false <-> b < a.
+Proof. rewrite qleb_negb, negb_false_iff. apply qltb_iff. Qed.
+Lemma qeqb_true a b : qeqb a b = true <-> a == b. Proof. apply Qeq_bool_iff. Qed.
+Lemma qeqb_false a b : qeqb a b = false <-> ~ a == b.
+Proof.
+  unfold qeqb. split.
+  - intros H E. apply Qeq_bool_iff in E. congruence.
+  - intros H. destruct (Qeq_bool a b) eqn:E; [apply Qeq_bool_iff in E; contradiction|reflexivity].
+Qed.
+Lemma q_sign q :
+  (qltb q 0 = true /\ qleb 0 q = false /\ qeqb q 0 = false /\ qltb 0 q = false) \/
+  (qltb q 0 = false /\ qleb 0 q = true /\ qeqb q 0 = true /\ qltb 0 q = false) \/
+  (qltb q 0 = false /\ qleb 0 q = true /\ qeqb q 0 = false /\ qltb 0 q = true).
+Proof.
+  destruct (Q_dec q 0) as [[L|G]|E].
+  - left. rewrite qltb_iff, qleb_false, qeqb_false, qltb_false. repeat split; lra.
+  - right; right. rewrite qltb_false, qleb_iff, qeqb_false, qltb_iff. repeat split; lra.
+  - right; left. rewrite qltb_false, qleb_iff, qeqb_true, qltb_false. repeat split; lra.
+Qed.
+Theorem Tempo_validate_tempi_iff_convention : forall t reference,
+  (exists qs, TP.validate_tempi t reference = Ok qs) <-> conv_tempi t reference = true.
+Proof.
+  intros t reference. unfold TP.validate_tempi, conv_tempi.
+  destruct t as [|a [|b [|c t']]]; cbn [length Nat.eqb negb andb]; try (split; [intros [qs H]; discriminate|discriminate]).
+  destruct a as [q1| | |], b as [q2| | |]; cbn; try (split; [intros [qs H]; discriminate|discriminate]);
+    try (rewrite andb_false_r; cbn; split; [intros [qs H]; discriminate|discriminate]).
+  destruct (q_sign q1) as [(A1 & A2 & A3 & A4)|[(A1 & A2 & A3 & A4)|(A1 & A2 & A3 & A4)]],
+           (q_sign q2) as [(B1 & B2 & B3 & B4)|[(B1 & B2 & B3 & B4)|(B1 & B2 & B3 & B4)]];
+    rewrite A1, A2, A3, A4, B1, B2, B3, B4; destruct reference; cbn;
+    (split; [intros [qs H]; first [discriminate|reflexivity]|intros H; first [discriminate|eexists; reflexivity]]).
+Qed.
+Theorem Tempo_validate_tempi_raises_ValueError : forall t reference e, TP.validate_tempi t reference = Raise e -> e = ValueError.
+Proof.
+  intros t reference e. unfold TP.validate_tempi. destruct (negb _); [congruence|]. destruct (TP.all_fin t); [|congruence].
+  destruct (existsb _ l); [congruence|]. destruct (reference && _); [congruence|discriminate].
+Qed.
+Theorem Tempo_validate_iff_convention : forall r w e, (exists v, TP.validate r w e = Ok v) <-> conv_tempo r w e = true.
+Proof.
+  intros r w e. unfold TP.validate, conv_tempo. rewrite !andb_true_iff, <- !Tempo_validate_tempi_iff_convention. split.
+  - intros [v H]. destruct (TP.validate_tempi r true) as [qr|] eqn:R; cbn in H; [|discriminate].
+    destruct (TP.validate_tempi e false) as [qe|] eqn:E; cbn in H; [|discriminate].
+    destruct (qltb w 0 || qltb 1 w) eqn:W; [discriminate|]. apply orb_false_iff in W. destruct W as [W1 W2].
+    rewrite !qleb_negb, W1, W2. repeat split; eexists; reflexivity.
+  - intros [[[[qr R] [qe E]] W1] W2]. rewrite R, E. cbn. rewrite qleb_negb in W1, W2. apply negb_true_iff in W1, W2.
+    rewrite W1, W2. eexists; reflexivity.
+Qed.
+Theorem Tempo_validate_raises_ValueError : forall r w e x, TP.validate r w e = Raise x -> x = ValueError.
+Proof.
+  intros r w e x. unfold TP.validate. destruct (TP.validate_tempi r true) eqn:R; cbn; [|intros H; inversion H; subst; eapply Tempo_validate_tempi_raises_ValueError; eassumption].
+  destruct (TP.validate_tempi e false) eqn:E; cbn; [|intros H; inversion H; subst; eapply Tempo_validate_tempi_raises_ValueError; eassumption].
+  destruct (qltb w 0 || qltb 1 w); [congruence|discriminate].
+Qed.
+
+(* ---------------------------------------------------------------- Pattern.validate_raw / validate *)
+(* docstring: patterns 'in the format returned by load_patterns' = list of patterns, each a non-empty list of occurrences,
+   each a list of (onset, midi) pairs; messages 'Each pattern must contain at least one occurrence',
+   'The (onset, midi) tuple must contain exactly 2 elements' *)
+Definition conv_pattern_list (ps : list (list (list PT.rnote))) : bool :=
+  forallb (fun p => negb (PT.is_nil p) && forallb (forallb (fun om => (length om =? 2)%nat)) p) ps.
+Definition conv_patterns (ref est : list (list (list PT.rnote))) : bool := conv_pattern_list ref && conv_pattern_list est.
+Theorem Pattern_validate_raw_iff_convention : forall ref est, PT.validate_raw ref est = Ok tt <-> conv_patterns ref est = true.
+Proof.
+  intros. unfold PT.validate_raw, conv_patterns, conv_pattern_list, PT.rnote in *. rewrite forallb_app.
+  destruct (forallb _ ref && forallb _ est); split; congruence.
+Qed.
+Theorem Pattern_validate_raw_raises_ValueError : forall ref est e, PT.validate_raw ref est = Raise e -> e = ValueError.
+Proof. intros ref est e. unfold PT.validate_raw. destruct (forallb _ _); [discriminate|congruence]. Qed.
+Theorem Pattern_validate_iff_convention : forall ref est,
+  PT.validate ref est = Ok tt <-> forallb (fun p => negb (PT.is_nil p)) ref && forallb (fun p => negb (PT.is_nil p)) est = true.
+Proof.
+  intros. unfold PT.validate, PT.pattern, PT.occ, PT.note in *. rewrite existsb_forallb, forallb_app.
+  destruct (forallb _ ref), (forallb _ est); cbn; split; congruence.
+Qed.
+Theorem Pattern_validate_raises_ValueError : forall ref est e, PT.validate ref est = Raise e -> e = ValueError.
+Proof. intros ref est e. unfold PT.validate. destruct (existsb _ _); [congruence|discriminate]. Qed.
+
+(* ---------------------------------------------------------------- Alignment.validate / validate_in *)
+(* docstring / messages: numpy arrays, one-dimensional, reference not empty, same number of timestamps, monotonically
+   increasing (equal neighbours accepted), not below 0 *)
+Definition conv_alignment_lists (ref est : list Q) : bool :=
+  negb (length ref =? 0)%nat && (length est =? length ref)%nat && nondecreasing ref && nondecreasing est
+  && forallb (fun t => qleb 0 t) ref && forallb (fun t => qleb 0 t) est.
+Definition conv_alignment (ref est : AL.tsin) : bool :=
+  match ref, est with AL.Nd 1 r, AL.Nd 1 e => conv_alignment_lists r e | _, _ => false end.
+Lemma diffs_nondecreasing l : forallb (fun d => qleb 0 d) (AL.diffs l) = nondecreasing l.
+Proof.
+  induction l as [|a [|b t] IH]; try reflexivity.
+  change (AL.diffs (a :: b :: t)) with ((b - a) :: AL.diffs (b :: t)).
+  change (nondecreasing (a :: b :: t)) with (qleb a b && nondecreasing (b :: t)). cbn [forallb]. rewrite IH. f_equal.
+  unfold qleb. destruct (Qle_bool 0 (b - a)) eqn:A, (Qle_bool a b) eqn:B; try reflexivity.
+  - apply Qle_bool_iff in A. assert (H : a <= b) by lra. apply Qle_bool_iff in H. congruence.
+  - apply Qle_bool_iff in B. assert (H : 0 <= b - a) by lra. apply Qle_bool_iff in H. congruence.
+Qed.
+Theorem Alignment_validate_iff_convention : forall ref est, AL.validate ref est = Ok tt <-> conv_alignment_lists ref est = true.
+Proof.
+  intros. unfold AL.validate, conv_alignment_lists. rewrite !diffs_nondecreasing.
+  destruct (length ref =? 0)%nat, (length est =? length ref)%nat, (nondecreasing ref), (nondecreasing est),
+    (forallb (fun t => qleb 0 t) ref), (forallb (fun t => qleb 0 t) est); cbn; split; congruence.
+Qed.
+Theorem Alignment_validate_raises_ValueError : forall ref est e, AL.validate ref est = Raise e -> e = ValueError.
+Proof. intros ref est. unfold AL.validate. repeat apply only_VE_ite. apply only_VE_ok. Qed.
+Theorem Alignment_validate_in_iff_convention : forall ref est, (exists v, AL.validate_in ref est = Ok v) <-> conv_alignment ref est = true.
+Proof.
+  intros ref est. unfold AL.validate_in, conv_alignment.
+  destruct ref as [|[|[|n]] r]; try (cbn; split; [intros [v H]; discriminate|discriminate]).
+  destruct est as [|[|[|m]] e]; try (cbn; split; [intros [v H]; discriminate|discriminate]).
+  rewrite <- Alignment_validate_iff_convention. destruct (AL.validate r e) as [[]|x]; cbn; split;
+    [intros _; reflexivity|intros _; eexists; reflexivity|intros [v H]; discriminate|discriminate].
+Qed.
+Theorem Alignment_validate_in_raises_ValueError : forall ref est e, AL.validate_in ref est = Raise e -> e = ValueError.
+Proof.
+  intros ref est e. unfold AL.validate_in. destruct ref as [|[|[|n]] r]; try (cbn; congruence).
+  destruct est as [|[|[|m]] x]; try (cbn; congruence). destruct (AL.validate r x) as [[]|y] eqn:V; cbn; [discriminate|].
+  intros H. inversion H; subst. eapply Alignment_validate_raises_ValueError; eassumption.
+Qed.
+
+(* ---------------------------------------------------------------- Separation.validate *)
+(* docstring: 'reference_sources : np.ndarray, shape=(nsrc, nsampl)' (3 dimensions for images); messages: the shapes should
+   match, at most 3 dimensions, no silent source (only examined for non-empty arrays), at most MAX_SOURCES sources. *)
+Definition conv_sources (mx : nat) (rs es : list nat) (rsil esil : bool) : bool :=
+  SP.shape_eqb rs es && negb (3 <? length rs)%nat && negb (3 <? length es)%nat
+  && ((SP.size_of rs =? 0)%nat || (negb (length rs <? 2)%nat && negb rsil))
+  && ((SP.size_of es =? 0)%nat || (negb (length es <? 2)%nat && negb esil))
+  && (hd 0%nat es <=? mx)%nat && (hd 0%nat rs <=? mx)%nat.
+Theorem Separation_validate_iff_convention : forall mx rs es rsil esil,
+  (exists w, SP.validate mx rs es rsil esil = Ok w) <-> conv_sources mx rs es rsil esil = true.
+Proof.
+  intros mx rs es rsil esil. unfold SP.validate, SP.validate_detail, conv_sources.
+  destruct (SP.shape_eqb rs es); cbn [negb andb]; [|split; [intros [w H]; discriminate|discriminate]].
+  destruct (3 <? length rs)%nat; cbn [negb andb orb]; [split; [intros [w H]; discriminate|discriminate]|].
+  destruct (3 <? length es)%nat; cbn [negb andb orb]; [split; [intros [w H]; discriminate|discriminate]|].
+  destruct (SP.size_of rs =? 0)%nat eqn:RE, (length rs <? 2)%nat eqn:RL, rsil,
+           (SP.size_of es =? 0)%nat eqn:EE, (length es <? 2)%nat eqn:EL, esil; cbn [negb andb orb];
+    try solve [split; [intros [w H]; discriminate|discriminate]];
+    (destruct rs as [|r0 rt]; [cbn in RE, RL; try discriminate|]); (destruct es as [|e0 et]; [cbn in EE, EL; try discriminate|]);
+    cbn [hd]; rewrite (Nat.ltb_antisym e0 mx), (Nat.ltb_antisym r0 mx); destruct (e0 <=? mx)%nat, (r0 <=? mx)%nat; cbn [negb andb orb];
+    (split; [intros [w H]; first [discriminate|reflexivity]|intros H; first [discriminate|eexists; reflexivity]]).
+Qed.
+(* every raise is a ValueError EXCEPT numpy's AxisError for a non-empty array with fewer than two dimensions *)
+Theorem Separation_validate_raise_kind : forall mx rs es rsil esil e,
+  SP.validate mx rs es rsil esil = Raise e -> e = ValueError \/ e = OtherExn.
+Proof.
+  intros mx rs es rsil esil e. unfold SP.validate. destruct (SP.validate_detail mx rs es rsil esil) as [[]|w]; intros H;
+    inversion H; auto.
+Qed.
+Theorem Separation_validate_raises_only_ValueError_refuted : exists mx rs es rsil esil e,
+  SP.validate mx rs es rsil esil = Raise e /\ e <> ValueError.
+Proof. exists 100%nat, [8%nat], [8%nat], false, false, OtherExn. split; [vm_compute; reflexivity|discriminate]. Qed.
+(* corrected: on arrays that are empty or have at least two dimensions every raise is a ValueError *)
+Theorem Separation_validate_raises_ValueError_2d : forall mx rs es rsil esil e,
+  ((SP.size_of rs =? 0) || negb (length rs <? 2) = true)%nat -> ((SP.size_of es =? 0) || negb (length es <? 2) = true)%nat ->
+  SP.validate mx rs es rsil esil = Raise e -> e = ValueError.
+Proof.
+  intros mx rs es rsil esil e Hr He. unfold SP.validate, SP.validate_detail.
+  destruct (SP.shape_eqb rs es); cbn [negb]; [|congruence].
+  destruct ((3 <? length rs) || (3 <? length es))%nat; [congruence|].
+  destruct (SP.size_of rs =? 0)%nat eqn:RE, (length rs <? 2)%nat eqn:RL; cbn in Hr; try discriminate; cbn [negb andb];
+    destruct (SP.size_of es =? 0)%nat eqn:EE, (length es <? 2)%nat eqn:EL; cbn in He; try discriminate; cbn [negb andb];
+    destruct rsil, esil; try congruence;
+    (destruct rs as [|r0 rt]; [cbn in RE, RL; try discriminate|]); (destruct es as [|e0 et]; [cbn in EE, EL; try discriminate|]);
+    destruct ((mx <? e0) || (mx <? r0))%nat; congruence.
+Qed.
